@@ -1,7 +1,131 @@
 From Coq Require Import List NArith ZArith Bool.
+From LTV Require Import Common.Bytes.
 From LTV.C07 Require Import Model.
 From LTV.C14 Require Import Model Proofs.
+Import ListNotations.
+Local Open Scope N_scope.
 
 Theorem params_ok_now : Proofs.params_ok = true.
 Proof. exact Proofs.params_ok_now. Qed.
 Print Assumptions params_ok_now.
+
+(* compact strings: exactly the whole 6-byte (18-byte) records, in order, nothing else; no out-of-range
+   read and termination for every byte string *)
+Theorem compact_exact : forall buf, parse_compact buf = POk (whole_records false buf).
+Proof. exact Proofs.compact_exact. Qed.
+Print Assumptions compact_exact.
+
+Theorem compact6_exact : forall buf, parse_compact6 buf = POk (whole_records true buf).
+Proof. exact Proofs.compact6_exact. Qed.
+Print Assumptions compact6_exact.
+
+Theorem whole_records_length : forall v6 l, length (whole_records v6 l) = (length l / rsz_of v6)%nat.
+Proof. exact Proofs.whole_records_length. Qed.
+Print Assumptions whole_records_length.
+
+Theorem whole_records_nth : forall v6 l i, (i < length l / rsz_of v6)%nat ->
+  nth_error (whole_records v6 l) i = Some (mk_record v6 (skipn (i * rsz_of v6) l)).
+Proof. exact Proofs.whole_records_nth. Qed.
+Print Assumptions whole_records_nth.
+
+Theorem parsers_no_fault : forall buf,
+  parse_compact buf <> PFault /\ parse_compact buf <> POutOfFuel /\
+  parse_compact6 buf <> PFault /\ parse_compact6 buf <> POutOfFuel.
+Proof. exact Proofs.parsers_no_fault. Qed.
+Print Assumptions parsers_no_fault.
+
+(* dictionary form *)
+Theorem normal_exact : forall l, parse_normal l = flat_map (fun v => opt_list _ (normal_entry v)) l.
+Proof. exact Proofs.normal_exact. Qed.
+Print Assumptions normal_exact.
+
+Theorem normal_entry_spec : forall v a, normal_entry v = Some a <->
+  exists m ip port, v = VMap m /\ map_lookup key_ip m = Some (VStr ip) /\ map_lookup key_port m = Some (VInt port) /\
+    (0 < port < 65536)%Z /\ existsb (fun c => c =? 0) ip = false /\
+    ((exists x, pton4 ip = Some x /\ x <> 0 /\ a = A4 x (Z.to_N port)) \/
+     (pton4 ip = None /\ exists x, pton6 ip = Some x /\ x <> 0 /\ a = A6 x (Z.to_N port))).
+Proof. exact Proofs.normal_entry_spec. Qed.
+Print Assumptions normal_entry_spec.
+
+Theorem normal_usable : forall l a, In a (parse_normal l) -> usable a /\ addr_port a < 65536.
+Proof. exact Proofs.normal_usable. Qed.
+Print Assumptions normal_usable.
+
+(* PeerList::insert_available, for every decision function of the existing-PeerInfo branch *)
+Theorem retained_usable : forall skip av maxsz al,
+  (forall a, In a av -> usable a) ->
+  forall a, In a (fst (insert_available skip av maxsz al)) -> usable a.
+Proof. exact Proofs.retained_usable. Qed.
+Print Assumptions retained_usable.
+
+Theorem retained_from_input : forall skip av maxsz al a,
+  In a (fst (insert_available skip av maxsz al)) -> In a av \/ In a al.
+Proof. exact Proofs.retained_from_input. Qed.
+Print Assumptions retained_from_input.
+
+Theorem cap : forall skip av maxsz al,
+  alen (fst (insert_available skip av maxsz al)) <= N.max (alen av) maxsz.
+Proof. exact Proofs.cap. Qed.
+Print Assumptions cap.
+
+Theorem unneeded_branch_dead : forall old x e r, find_less old x = e :: r -> addr_ltb_addr e x = true.
+Proof. exact Proofs.find_less_head. Qed.
+Print Assumptions unneeded_branch_dead.
+
+(* every sequence of tracker / PEX / buffered payloads on a PeerList: only usable addresses, at most maxsz,
+   never an out-of-range read *)
+Theorem pipeline_retained_usable_and_cap : forall maxsz ops, pl_inv maxsz (pl_run maxsz ops).
+Proof. exact Proofs.pl_run_inv. Qed.
+Print Assumptions pipeline_retained_usable_and_cap.
+
+Theorem pipeline_never_faults : forall maxsz ops, pl_run maxsz ops <> PFault /\ pl_run maxsz ops <> POutOfFuel.
+Proof. exact Proofs.pl_never_faults. Qed.
+Print Assumptions pipeline_never_faults.
+
+(* UDP tracker *)
+Theorem udp_header : forall u action buf, action <> 3 ->
+  (fst (fst (process_header u action buf)) = HdrOk <->
+   hdr_size <= blen buf /\ rd_be buf 0 4 0 = Some action /\ rd_be buf 4 4 0 = Some (u_tx u)).
+Proof. exact Proofs.udp_header. Qed.
+Print Assumptions udp_header.
+
+Theorem udp_effect_needs_match : forall u from_ok dgram u' e,
+  router_read u from_ok dgram = (u', e) -> e <> EvDrop -> e <> EvFault ->
+  let buf := firstn (N.to_nat udp_buffer_size) dgram in
+  from_ok = true /\ hdr_size <= blen buf /\
+  exists id ph, u_routed u = Some (id, ph) /\ id <> 0 /\ rd_be buf 4 4 0 = Some id.
+Proof. exact Proofs.udp_effect_needs_match. Qed.
+Print Assumptions udp_effect_needs_match.
+
+Theorem udp_connect_malformed_fails_one_request : forall u buf,
+  snd (process_connect u buf) <> EvFault /\
+  (is_udp_failure (snd (process_connect u buf)) ->
+   u_other_tx (snd (fst (process_connect u buf))) = u_other_tx u /\ u_ts (snd (fst (process_connect u buf))) = u_ts u).
+Proof. exact Proofs.process_connect_safe. Qed.
+Print Assumptions udp_connect_malformed_fails_one_request.
+
+Theorem udp_announce_exact_and_malformed_fails_one_request : forall u buf,
+  snd (process_announce u buf) <> EvFault /\
+  (forall l, snd (process_announce u buf) = EvSuccess l \/ snd (process_announce u buf) = EvNewPeers l ->
+     l = spec_rec (S (length buf)) (u_v6 u) (skipn 20 buf)) /\
+  (is_udp_failure (snd (process_announce u buf)) ->
+   u_other_tx (snd (fst (process_announce u buf))) = u_other_tx u /\ u_ts (snd (fst (process_announce u buf))) = u_ts u).
+Proof. exact Proofs.process_announce_safe. Qed.
+Print Assumptions udp_announce_exact_and_malformed_fails_one_request.
+
+Theorem udp_router_never_faults : forall u from_ok dgram, snd (router_read u from_ok dgram) <> EvFault.
+Proof. exact Proofs.router_never_faults. Qed.
+Print Assumptions udp_router_never_faults.
+
+(* HTTP tracker *)
+Theorem http_malformed_fails_one_request : forall ih ev body ts,
+  (forall m fl rest, decode_stream body <> Ok (VMap m, fl) rest) ->
+  (decode_stream body <> Fault /\ decode_stream body <> OutOfFuel) ->
+  fst (http_receive_done ih ev body ts) = ts /\ is_failure (snd (http_receive_done ih ev body ts)).
+Proof. exact Proofs.http_malformed_fails. Qed.
+Print Assumptions http_malformed_fails_one_request.
+
+Theorem http_fault_only_from_decoder_partial : forall ih ev body ts,
+  snd (http_receive_done ih ev body ts) = EvFault -> decode_stream body = Fault \/ decode_stream body = OutOfFuel.
+Proof. exact Proofs.http_fault_only_from_decoder. Qed.
+Print Assumptions http_fault_only_from_decoder_partial.
